@@ -14,7 +14,7 @@ TRUSTED = [
     "reservation theorems: valve, quake, unreal2; gamespy one/two/three and the single-game protocols are measured through the same allocator on count / index / offset mutations (no theorem yet)",
 ]
 RULE = ("extreme values written into every length / count / size / index position of Spec-generated valid scripts (split headers, compressed size and CRC, player and rule counts, "
-        "string terminators) plus the C01 malformed stream; the implementation's measured largest single allocation must be <= 16 MiB, peak live <= 64 MiB, and the number of "
+        "string terminators; GameSpy: maxplayers / numplayers / query ids as huge numbers, a large index in the name of every kind of per-player variable, table row counts, field offsets; Unreal 2 announced counts; JC2M and Mindustry lengths) plus the C01 malformed stream; the implementation's measured largest single allocation must be <= 16 MiB, peak live <= 64 MiB, and the number of "
         "datagrams sent <= 3 (retries+1) + datagrams received; non-trivial = a length/count field was altered; distinct by case bytes")
 MIB = 1 << 20
 
